@@ -174,9 +174,11 @@ theorem rawParts_exact (h s f : Str) :
   rw [e1, e2, e3]
 
 /-- `header_args_footer_to_str` puts the header first and the footer last, without overlap -/
+theorem sandwich4 (h A B C f : Str) : ∃ mid, h ++ A ++ B ++ C ++ f = h ++ mid ++ f := ⟨A ++ B ++ C, by simp⟩
+
 theorem haf_sandwich (h a f : Str) : ∃ mid, hafToStr h a f = h ++ mid ++ f := by
   unfold hafToStr
-  exact ⟨_, by simp only [List.append_assoc]; rfl⟩
+  exact sandwich4 _ _ _ _ _
 
 /-- `parse_docstring_into_header_args_footer` returns the original's header and footer slices -/
 theorem parseHAF_parts (cur org : Str) (s l : Int) (hne : org ≠ []) (hidx : idxPair org = .ok (s, l))
@@ -185,14 +187,20 @@ theorem parseHAF_parts (cur org : Str) (s l : Int) (hne : org ≠ []) (hidx : id
   unfold parseHAF at hp
   have he : org.isEmpty = false := by cases org with | nil => exact absurd rfl hne | cons _ _ => rfl
   simp only [he, Bool.false_eq_true, if_false, hidx] at hp
-  cases hc : (if cur.isEmpty = true then (pure none : Except String (Option (Int × Int))) else do let p ← idxPair cur; pure (some p)) with
-  | error e => rw [hc] at hp; cases hp
-  | ok c =>
-    rw [hc] at hp
-    simp only [ok_bind, pure, Except.pure] at hp
+  by_cases hce : cur.isEmpty = true
+  · simp only [hce, if_true, ok_bind, pure, Except.pure] at hp
     injection hp with hp
     simp only [Prod.mk.injEq] at hp
     exact ⟨hp.1.symm, hp.2.2.symm⟩
+  · simp only [hce, Bool.false_eq_true, if_false] at hp
+    cases hic : idxPair cur with
+    | error e => rw [hic] at hp; cases hp
+    | ok c =>
+      rw [hic] at hp
+      simp only [ok_bind, pure, Except.pure] at hp
+      injection hp with hp
+      simp only [Prod.mk.injEq] at hp
+      exact ⟨hp.1.symm, hp.2.2.symm⟩
 
 /-- **conversion keeps header and footer** around whatever the new parameter section is -/
 theorem whence_sandwich (cur h s f r : Str) (hne : h ++ s ++ f ≠ [])
@@ -213,5 +221,63 @@ theorem whence_sandwich (cur h s f r : Str) (hne : h ++ s ++ f ≠ [])
       simp only at e1 e2
       subst e1 e2
       exact haf_sandwich _ _ _
+
+/-! ### the last line of a string -/
+
+/-- the text after the last newline -/
+def lastLine (d : Str) : Str := (d.reverse.takeWhile (· != '\n')).reverse
+
+theorem mem_takeWhile_pred {α : Type} (p : α → Bool) (l : List α) (x : α) (h : x ∈ l.takeWhile p) : p x = true := by
+  induction l with
+  | nil => simp at h
+  | cons a as ih =>
+    by_cases ha : p a = true
+    · simp only [List.takeWhile_cons, ha, if_true, List.mem_cons] at h
+      rcases h with h | h
+      · rw [h]; exact ha
+      · exact ih h
+    · simp [ha] at h
+
+theorem dropWhile_head_false {α : Type} (p : α → Bool) (l : List α) (c : α) (R : List α) (h : l.dropWhile p = c :: R) : p c = false := by
+  induction l with
+  | nil => simp at h
+  | cons a as ih =>
+    by_cases ha : p a = true
+    · simp only [List.dropWhile_cons, ha, if_true] at h; exact ih h
+    · simp only [List.dropWhile_cons, ha, Bool.false_eq_true, if_false, List.cons.injEq] at h
+      rw [← h.1]; simpa using ha
+
+theorem lastLine_noNl (d : Str) : '\n' ∉ lastLine d := by
+  unfold lastLine
+  intro h
+  rw [List.mem_reverse] at h
+  have := mem_takeWhile_pred _ _ _ h
+  simp at this
+
+theorem lastLine_decomp (d : Str) (h : '\n' ∈ d) : ∃ A, d = A ++ '\n' :: lastLine d := by
+  have hsplit := List.takeWhile_append_dropWhile (p := (· != '\n')) (l := d.reverse)
+  have hmem : '\n' ∈ d.reverse := List.mem_reverse.mpr h
+  cases hdw : d.reverse.dropWhile (· != '\n') with
+  | nil =>
+    rw [hdw, List.append_nil] at hsplit
+    rw [← hsplit] at hmem
+    have := mem_takeWhile_pred _ _ _ hmem
+    simp at this
+  | cons c R =>
+    have hc : c = '\n' := by
+      have := dropWhile_head_false _ _ _ _ hdw
+      simpa using this
+    subst hc
+    refine ⟨R.reverse, ?_⟩
+    rw [hdw] at hsplit
+    have := congrArg List.reverse hsplit
+    simp only [List.reverse_append, List.reverse_cons, List.reverse_reverse, List.append_assoc, List.singleton_append] at this
+    exact this.symm
+
+theorem lastLine_append_nl (a : Str) : lastLine (a ++ ['\n']) = [] := by
+  simp [lastLine]
+
+/-- the footer of the absorbed shape: the last line without its indentation — unless it starts with a token -/
+def absorbedFooter (d : Str) : Str := if startsWithAny tokensSet (lstrip (lastLine d)) then [] else lstrip (lastLine d)
 
 end DSS
